@@ -38,6 +38,7 @@ def gen_descs(ctx):
     a = tfimpl.dy(rng, -4, 4)
     omin = a if bmode in ("min", "both") else None
     omax = a + rng.choice([0.5, 1.0, 4.0, 8.0]) if bmode in ("max", "both") else None
+    omin, omax = tfimpl.zero_bound(rng, omin, omax)
     clamp_min = bool(mono != 0 and omin is not None and rng.random() < 0.4)
     clamp_max = bool(mono != 0 and omax is not None and rng.random() < 0.4)
     units = rng.choice([1, 1, 2, 3])
